@@ -220,7 +220,10 @@ def _fresh_metadata(ctx, f, call, clause):
     if isinstance(a, ast.Name):
         ds = [v for v, _ in defs_of(f.node, a.id)]
         src = ds[0] if len(ds) == 1 else a
-    ok = isinstance(src, ast.Call) and dotted(src.func) == 'dict' and len(src.args) == 1 and norm(src.args[0]) == 'self.metadata'
+    ok = isinstance(src, ast.Call) and dotted(src.func) in ('dict', 'copy.copy', 'copy.deepcopy') and len(src.args) == 1 and \
+        norm(src.args[0]) in ('self.metadata', 'self._metadata')
+    ok = ok or (isinstance(src, ast.Dict) and len(src.keys) == 1 and src.keys[0] is None and
+                norm(src.values[0]) in ('self.metadata', 'self._metadata'))          # {**self.metadata}
     ctx.decide(ok, 'R-FLOW', clause, f, call, 'fresh-metadata-dict',
                f'{f.qualname} passes a fresh dict(self.metadata) (identical content, no shared object)',
                detail=f'metadata={norm(src) if src is not None else None}: the live metadata object of the source is shared or metadata are dropped')
